@@ -27,6 +27,7 @@ SUPERSEDED = {
     "C11-s1": "re-ordered footprint densification now calls segmented() with a zero step for a degenerate geobox, which the F31 guard rejects: stable test test_html_repr fails with the patch, so it no longer meets 'tests still pass'",
     "C12-s2": "its breakage (candidate range from a box projected by its corners) was repaired by F33 (GeoBox.project densifies): the demo passes with the patch; still reported because the edit computes the range before the is_empty test (F36)",
     "C12-r2s3": "it replaced the is_empty guard in grid_intersect; since F36 GeoboxTiles.tiles handles an empty query itself, the demo passes with the patch and the check is silent on it",
+    "C13-r2s3": "its breakage (range_from_bbox counts a pixel only when the span reaches its centre) is compensated by the one-source-pixel slack grid_intersect adds since repair F78: the demo passes with the (rebased) patch; the C13 check still reports the edit (inward half-shift of a candidate range)",
     "C04-r3s2": "Tiles.crop early return through roi_is_full: after repair F30 (roi_is_full normalises) two stable tests fail with the patch, so it no longer meets 'tests still pass'",
 }
 verified_first_run = {"C02", "C04", "C06", "C07", "C14", "C15", "C16", "C18", "C19", "C20"}
